@@ -39,8 +39,8 @@ def one(d):
     finally:
         shutil.rmtree(tmp, ignore_errors=True)
 
-dirs = sorted(glob.glob(os.path.join(VERIF, "seeded", "*")))
-with ThreadPoolExecutor(max_workers=6) as ex:
+dirs = sorted(glob.glob(os.path.join(VERIF, "seeded", sys.argv[1] if len(sys.argv) > 1 else "*")))
+with ThreadPoolExecutor(max_workers=int(os.environ.get("JOBS", "6"))) as ex:
     for m in ex.map(one, dirs):
         own = "own" if m.get("caught_by_own_property") else ("any" if m.get("reported_by") else "MISSED")
         if m.get("recheck_error"):
